@@ -6,7 +6,10 @@ namespace {
 
 struct Cfg { uint32_t id; uint8_t type, num; uint32_t map[8]; };
 
-void one_case(Ctx &c) {
+}  // namespace
+
+// also run as a mode of C04 (the mapping abort codes 0604 0041h/0042h belong to C04's statement and need PDO objects)
+void vf::c14_case(Ctx &c) {
   Sim s(c); World w(s);
   s.nodeid = (uint8_t)(1 + c.t.below(127));
   w.mandatory();
@@ -17,6 +20,7 @@ void one_case(Ctx &c) {
   uint32_t tbase = 0x180u + s.nodeid, rbase = 0x200u + s.nodeid;
   TpdoCfg tc = add_tpdo(w, 0, 0xC0000000u | tbase, 254, 0, 0, {}, nsub);
   RpdoCfg rc = add_rpdo(w, 0, 0x80000000u | rbase, 254, {}, nsub);
+  add_sync(w, 0x80, 0);
   w.finish();
   TObj *ob[6]; for (int i = 0; i < 6; i++) ob[i] = w.lookup(0x2100, OB[i].sub);
   SdoClient cl(s, w.req[0], w.rsp[0]);
@@ -24,6 +28,7 @@ void one_case(Ctx &c) {
   memset(st, 0, sizeof st); memset(ac, 0, sizeof ac);
   st[0].id = 0xC0000000u | tbase; st[0].type = 254; st[1].id = 0x80000000u | rbase; st[1].type = 254;
   int mode = 2; int accepted = 0, refused = 0; bool activated_after = false;
+  int synccnt = 0; bool rpend = false, sync_probed = false;   // SYNCs counted since the TPDO's activation; a synchronous RPDO frame may be buffered
   auto findobj = [&](uint32_t m) -> int { for (int i = 0; i < 6; i++) if ((m >> 8) == ((0x2100u << 8) | OB[i].sub)) return i; return -1; };
   auto verdict = [&](uint32_t code, bool refuse, uint32_t want, const char *what, uint32_t val) {
     if (refuse) { CHECK(c, code != 0, "precondition-enforced", "%s := %08X was accepted although the CiA 301 preconditions do not hold", what, val); if (want) CHECK(c, code == want, "abort-code", "%s := %08X refused with %08X, expected %08X", what, val, code, want); refused++; }
@@ -37,7 +42,7 @@ void one_case(Ctx &c) {
       for (int i = 0; i < nsub; i++) CHECK(c, g[k].map[i] == st[k].map[i], "stored-value-unchanged-on-refusal", "%s mapping entry %d holds %08X, expected %08X", k ? "RPDO" : "TPDO", i + 1, g[k].map[i], st[k].map[i]);
     }
   };
-  auto load = [&](int k) { ac[k] = st[k]; act[k] = true; if (accepted && refused) activated_after = true;
+  auto load = [&](int k) { ac[k] = st[k]; act[k] = true; if (accepted && refused) activated_after = true; if (k == 0) synccnt = 0;
     int tot = 0; for (int i = 0; i < ac[k].num; i++) { if (ac[k].map[i] == 0) continue;   /* entry never configured (initial dictionary content, not something a client wrote) */
       CHECK(c, findobj(ac[k].map[i]) >= 0, "activated-mapping-valid", "activated %s maps the non-existent object %08X", k ? "RPDO" : "TPDO", ac[k].map[i]); tot += (ac[k].map[i] & 0xFF) >> 3; }
     CHECK(c, tot <= 8, "activated-mapping-valid", "activated %s maps %d bytes", k ? "RPDO" : "TPDO", tot); };
@@ -45,7 +50,7 @@ void one_case(Ctx &c) {
   while (!c.t.exhausted() && steps < (c.thorough ? 140 : 70)) {
     steps++; c.ops++;
     int k = (int)c.t.below(2); uint16_t com = k ? 0x1400 : 0x1800, mp = k ? 0x1600 : 0x1A00;
-    static const uint16_t W[7] = {22, 8, 22, 30, 8, 6, 6};
+    static const uint16_t W[8] = {22, 8, 22, 30, 8, 6, 6, 8};
     uint32_t op = c.t.weighted(W);
     s.clear_tx();
     if (op == 0) {        // COB-ID
@@ -99,6 +104,23 @@ void one_case(Ctx &c) {
         uint8_t ex[8]; int p = 0; for (int i = 0; i < ac[0].num; i++) { int o = findobj(ac[0].map[i]); memcpy(ex + p, ob[o]->store, OB[o].bytes); p += OB[o].bytes; }
         CHECK(c, s.tx[0].id == (ac[0].id & 0x7FFu) && s.tx[0].dlc == p && !memcmp(s.tx[0].d, ex, p), "takes-effect-as-stored", "TPDO frame %s does not match the activated configuration (id %03X, %d mapped bytes)", s.tx[0].str().c_str(), ac[0].id & 0x7FF, p);
       }
+    } else if (op == 7) { // SYNC activation probe: a synchronous TPDO of type n answers every n-th SYNC since its activation, any other TPDO no SYNC
+      if (mode != 3) continue;
+      SplitMix r(c.t.u16()); for (int i = 0; i < 4; i++) { uint8_t b[4]; uint32_t v = (uint32_t)r.next(); memcpy(b, &v, 4); memcpy(ob[i]->store, b, ob[i]->width); }
+      std::vector<uint8_t> model = s.snapshot();
+      s.clear_tx(); s.rx(Frame::mk(0x80, 0, {}));
+      int e = 0;
+      if (act[0] && !(ac[0].id & 0x80000000u)) { if (ac[0].type >= 1 && ac[0].type <= 240) { synccnt++; e = synccnt == ac[0].type; if (e) synccnt = 0; } else if (ac[0].type < 254) e = -1; }   // type 0 and reserved types: not constrained
+      VLOG(c, "probe: SYNC -> %zu frame(s) (activated TPDO type %u, SYNC count %d)", s.tx.size(), ac[0].type, synccnt);
+      for (int i = 0; i < ac[0].num; i++) if (findobj(ac[0].map[i]) < 0) e = -1;   // a count that covers never-configured (0) entries: the activation fails half-way, not constrained
+      if (e >= 0) CHECK(c, (int)s.tx.size() == e, "takes-effect-as-stored", "SYNC with the activated TPDO configuration (COB-ID %08X, type %u, %d SYNC(s) since the last transmission or activation): %zu frame(s), expected %d", ac[0].id, ac[0].type, synccnt, s.tx.size(), e);
+      if (e == 1 && s.tx.size() == 1) {
+        bool consistent = true; for (int i = 0; i < ac[0].num; i++) { int o = findobj(ac[0].map[i]); int by = (ac[0].map[i] & 0xFF) >> 3; if (o < 0 || by != OB[o].bytes) consistent = false; }
+        if (consistent) { uint8_t ex[8]; int p = 0; for (int i = 0; i < ac[0].num; i++) { int o = findobj(ac[0].map[i]); memcpy(ex + p, ob[o]->store, OB[o].bytes); p += OB[o].bytes; }
+          CHECK(c, s.tx[0].id == (ac[0].id & 0x7FFu) && s.tx[0].dlc == p && !memcmp(s.tx[0].d, ex, p), "takes-effect-as-stored", "TPDO frame %s on SYNC does not match the activated configuration (id %03X, %d mapped bytes)", s.tx[0].str().c_str(), ac[0].id & 0x7FF, p); }
+      }
+      if (!rpend) { std::string d = s.diff_snapshot(model, s.snapshot()); CHECK(c, d.empty(), "takes-effect-as-stored", "a SYNC that follows no reception of a synchronous RPDO changed objects: %s", d.c_str()); }
+      rpend = false; sync_probed = true;
     } else {              // RPDO activation probe
       if (mode != 3) continue;
       Frame f; f.id = c.t.chance(200) ? rbase : rbase + 1; f.dlc = 8; for (int i = 0; i < 8; i++) f.d[i] = c.t.byte();
@@ -106,6 +128,7 @@ void one_case(Ctx &c) {
       std::vector<uint8_t> model = s.snapshot();
       s.rx(f);
       bool hit = act[1] && ac[1].type > 240 && !(ac[1].id & 0x80000000u) && (ac[1].id & 0x7FFu) == f.id;
+      if (act[1] && ac[1].type <= 240 && !(ac[1].id & 0x80000000u) && (ac[1].id & 0x7FFu) == f.id) rpend = true;   // buffered until the next SYNC (its effect is C13's business)
       VLOG(c, "probe: RPDO frame %s -> %s", f.str().c_str(), hit ? "mapped objects written" : "no effect");
       if (hit && !consistent) continue;
       if (hit) { int p = 0; for (int i = 0; i < ac[1].num; i++) { int o = findobj(ac[1].map[i]); w.expect_write(model, *ob[o], f.d + p, OB[o].bytes); p += OB[o].bytes; } }
@@ -115,17 +138,19 @@ void one_case(Ctx &c) {
     stored_equal();
   }
   if (accepted && refused && activated_after) c.nontrivial = true;
-  if (accepted && refused) c.cls("accepted-and-refused-writes"); if (activated_after) c.cls("activation-after-reconfiguration");
+  if (accepted && refused) c.cls("accepted-and-refused-writes"); if (activated_after) c.cls("activation-after-reconfiguration"); if (sync_probed) c.cls("sync-probe");
 }
+
+namespace {
 
 Registrar reg(Prop{
     "C14",
     "Cases: node id 1..127, one TPDO and one RPDO (initially invalid, empty mapping, 4..8 mapping sub-indices present) and candidate objects {mappable RW 8/16/32 bit, mappable read-only, mappable write-only, not mappable}; histories of up to 70 (140) expedited SDO writes to 14xx/16xx/18xx/1Axx sub-indices with values from a covering domain "
-    "(valid/invalid bit, id change, EXT and RTR bits, types, counts 0..9, entries naming existing / absent index / absent sub-index / non-mappable / wrong-access objects with lengths 8..64 bit), interleaved with NMT start / pre-operational and activation probes (trigger the TPDO, send the RPDO frame). "
+    "(valid/invalid bit, id change, EXT and RTR bits, types, counts 0..9, entries naming existing / absent index / absent sub-index / non-mappable / wrong-access objects with lengths 8..64 bit), interleaved with NMT start / pre-operational and activation probes (trigger the TPDO, send the RPDO frame, send a SYNC). "
     "Oracle: rule model: accepted only under the CiA 301 preconditions of the statement, abort code 0604 0041h / 0604 0042h where the reason is named (otherwise any abort), every refused write leaves all stored values unchanged, clearly allowed writes are accepted, "
-    "invariant at each activation (<= 8 mapped bytes, all targets exist), and the activated PDO behaves exactly as the stored configuration (frame identifier/DLC/content, RPDO effect via full snapshot). "
+    "invariant at each activation (<= 8 mapped bytes, all targets exist), and the activated PDO behaves exactly as the stored configuration (frame identifier/DLC/content, RPDO effect via full snapshot, a synchronous TPDO of type n answers every n-th SYNC since its activation and an event-driven or invalid one none). "
     "Non-trivial: >= 1 accepted and >= 1 refused write and an activation after them. Distinct = distinct decoded choice sequence.",
-    {Mode{"random", one_case, false, 1000000, 20000000, 0, 0, 300, 600}},
+    {Mode{"random", vf::c14_case, false, 1000000, 20000000, 0, 0, 300, 600}},
     {"a valid->valid COB-ID write with the identical value may be refused or accepted", "the length field of a mapping entry is not checked against the object width by the statement; activation probes are evaluated for width-consistent mappings only",
      "a refusal whose reason the statement does not name may carry any abort code"}});
 
